@@ -368,6 +368,15 @@ def _ev(e, env):
     if isinstance(e, ast.Attribute):
         if isinstance(e.value, ast.Name) and env.get(e.value.id) == "__SELF__":
             if e.attr not in env["__self__"]:
+                meth = env.get("__methods__", {}).get(e.attr)
+                if meth is not None and any(A.dotted(d) == "property" for d in meth.decorator_list):
+                    extra = {k: env[k] for k in ("__calls__", "__values__", "__isinstance__", "__methods__", "__globals__",
+                                                 "__global_lookup__", "__max_iter__") if k in env}
+                    return call_method(meth, env["__self__"], [], extra)
+                if meth is not None:
+                    extra = {k: env[k] for k in ("__calls__", "__values__", "__isinstance__", "__methods__", "__globals__",
+                                                 "__global_lookup__", "__max_iter__") if k in env}
+                    return (lambda node: lambda *a: call_method(node, env["__self__"], list(a), extra))(meth)
                 raise AnalysisError("miniinterp: unknown field %s" % e.attr)
             return env["__self__"][e.attr]
         d = A.dotted(e)
@@ -378,6 +387,18 @@ def _ev(e, env):
             if e.attr not in base.attrs:
                 raise Raised("AttributeError")
             return base.attrs[e.attr]
+        if isinstance(base, (list, dict, set, tuple, str, bytes, frozenset)) and e.attr in (
+                "pop", "append", "extend", "insert", "remove", "index", "count", "reverse", "sort", "clear", "copy", "get", "items",
+                "keys", "values", "update", "setdefault", "add", "discard", "upper", "lower", "strip", "split", "join", "startswith",
+                "endswith", "encode", "decode", "format", "popitem"):
+            bound = getattr(base, e.attr)
+
+            def guarded(*a, **k):
+                try:
+                    return bound(*a, **k)
+                except (KeyError, IndexError, ValueError, TypeError) as ex:
+                    raise Raised(type(ex).__name__)
+            return guarded
         if getattr(base, "mi_native", False) and not e.attr.startswith("mi_"):
             try:
                 return getattr(base, e.attr)
@@ -391,6 +412,9 @@ def _ev(e, env):
             return base[key]
         except (KeyError, IndexError):
             raise Raised("KeyError")
+    if isinstance(e, ast.Slice):
+        return slice(_ev(e.lower, env) if e.lower is not None else None, _ev(e.upper, env) if e.upper is not None else None,
+                     _ev(e.step, env) if e.step is not None else None)
     if isinstance(e, ast.List):
         return [_ev(x, env) for x in e.elts]
     if isinstance(e, ast.Tuple):
